@@ -44,3 +44,5 @@ pub mod synchronisation {
     pub mod peer_outbound_service { pub use crate::synchronisation::peer_outbound_service::*; }
     pub mod room_locking_service { pub use crate::synchronisation::room_locking_service::*; }
 }
+/// H4: fault injection points of the batch writer (arm / disarm / trace)
+pub mod verif_faults { pub use crate::database::sqlite_database::verif_faults::*; }
